@@ -430,19 +430,20 @@ class RunLoop(Unit):
 
     def setup(self, I):
         install_exc_info(I)
-        keys = loop_keys(raw(NetworkingThread, '_run'), N_, kind=ast.While)
-        if len(keys) != 3:
-            raise Unsupported('contract does not fit the code any more: _run no longer has three while loops')
+        k_outer, k_write, k_read = self.loops_by_role()
         unit = self
-        k_outer, k_write, k_read = keys
 
         # outer loop: one arbitrary iteration from an arbitrary state
         I.loop_specs[k_outer] = LoopSpec('outer', lambda I_, fr: True, lambda I_, fr: unit.havoc_outer(I_), None)
 
         def w_inv(I_, fr):
             G = unit.G
-            return And(fr.locals['num_packets'] == G['written'], G['written'] >= 0, G['written'] < 300,
-                       unit.queue.head == G['written'])
+            base = And(G['written'] >= 0, unit.queue.head == G['written'])
+            if '$counter' in fr.locals and k_write[1].startswith('for@'):
+                # written as `for _ in range(LIMIT)`: the position in the range is the number of packets written
+                return And(base, G['written'] == fr.locals['$counter'] - fr.locals['$start'])
+            # written as `while ... : count += 1; if count >= LIMIT: break`: the loop's own counter carries the limit
+            return And(base, fr.locals['num_packets'] == G['written'], G['written'] < 300)
 
         def w_havoc(I_, fr):
             E = I_.E
@@ -476,6 +477,32 @@ class RunLoop(Unit):
         r_havoc.keeps = ('read_timeout', 'exc_info')     # both are havocked by case split above (kept / reset)
         I.loop_specs[k_read] = LoopSpec('read-batch', r_inv, r_havoc, lambda I_, fr: 50 - fr.locals['num_packets'])
 
+    @staticmethod
+    def loops_by_role():
+        """(outer, write batch, read batch) loop keys of _run, found by what the loops DO (which one contains the others,
+        which one pops from the queue, which one reads packets) - `while` and `for ... in range(...)` forms alike."""
+        import inspect, textwrap
+        f = raw(NetworkingThread, '_run')
+        lines, start = inspect.getsourcelines(f)
+        tree = ast.parse(textwrap.dedent(''.join(lines)))
+        loops = sorted((n for n in ast.walk(tree) if isinstance(n, (ast.While, ast.For))), key=lambda n: n.lineno)
+
+        def key(n):
+            return (N_, '%s@%d' % ('while' if isinstance(n, ast.While) else 'for', n.lineno + start - 1))
+
+        def mentions(n, name):
+            return any(isinstance(x, ast.Attribute) and x.attr == name for x in ast.walk(n))
+
+        def inner(n):
+            return [m for m in ast.walk(n) if m is not n and isinstance(m, (ast.While, ast.For))]
+        outer = [n for n in loops if len(inner(n)) == 2]
+        write = [n for n in loops if not inner(n) and mentions(n, '_pop_packet')]
+        read = [n for n in loops if not inner(n) and mentions(n, 'read_packet')]
+        if len(loops) != 3 or len(outer) != 1 or len(write) != 1 or len(read) != 1:
+            raise Unsupported('contract does not fit the code any more: _run is not "a loop around a write batch and a read batch" '
+                              '(%d loops found)' % len(loops))
+        return key(outer[0]), key(write[0]), key(read[0])
+
     def havoc_outer(self, I):
         self.thread.__dict__['interrupt'] = False if True else None
 
@@ -496,6 +523,7 @@ class RunLoop(Unit):
             E.check('write.under-lock', lock.depth >= 1, note='_pop_packet is only called with the write lock held')
             if not I.truth(unit.queue.n > 0):
                 return False
+            E.check('write.batch-limit', G['written'] < 300, note='never a 301st write in one batch (the thread turns to reading)')
             it = unit.queue.popleft()
             E.check('write.fifo', it.idx == G['written'], note='packets leave in the order they were queued')
             G['written'] = G['written'] + 1
